@@ -157,8 +157,14 @@ def cases(seed, tier):
         for _ in range(per):
             t = gen_source_case(rng, noisy=True, big_ok=False)
             t['docov'] = docov
+            if rng.random() < 0.35:
+                # elongated sources along an image axis: the corner where the fitted sx/sy swap roles
+                t['src']['a'] = t['src']['b'] * float(rng.uniform(2.2, 4.0))
+                t['src']['pa'] = float(rng.choice([0.0, 90.0, 90.0])) + float(rng.uniform(-15, 15))
+                if t['src']['pa'] > 90:
+                    t['src']['pa'] -= 180
             if docov:          # keep islands small enough for the covariance matrix
-                t['src']['a'] = min(t['src']['a'], 8.0 * t['scale'] * 3600)
+                t['src']['a'] = min(t['src']['a'], 9.0 * t['scale'] * 3600)
                 t['src']['b'] = min(t['src']['b'], t['src']['a'])
             trials.append(t)
         out.append({'kind': 'noisy', 'docov': docov, 'trials': trials})
@@ -465,7 +471,7 @@ def _run_noisy(o, case, sc):
         if len(rows) > len(near):
             o.count('components_on_other_islands_noise_peaks', len(rows) - len(near))
         rec = {'docov': t['docov'], 'snr': t['snr'], 'n_near': len(near), 'n_all': len(rows), 'bane': t.get('bane', False),
-               'local_maxima_in_footprint': nmax}
+               'local_maxima_in_footprint': nmax, 'ratio': truth['a'] / truth['b'], 'pa': truth['pa']}
         if len(near) != 1 and nmax >= 2:
             # the finder seeds one component per 3x3 local maximum inside an island: noise that creates a second local
             # maximum inside the source's own island adds a component (mechanism decided from the image, not the output)
@@ -502,8 +508,24 @@ def _k0(n, p0=5e-3, alpha=1e-9):
     return k
 
 
+def _strata(rec):
+    out = []
+    r = rec.get('ratio', 1.0)
+    pa = abs(rec.get('pa', 0.0))
+    along = 'ns' if pa < 30 else ('ew' if pa > 60 else 'diag')
+    if r >= 1.8:
+        out.append('elongated_%s' % along)
+    else:
+        out.append('round')
+    out.append('snr_hi' if rec.get('snr', 0) >= 120 else 'snr_lo')
+    if rec.get('bane'):
+        out.append('internal_bane')
+    return out
+
+
 def fold(cases_, results, tier):
     by = {}
+    by_stratum = {}
     n_trials = {True: 0, False: 0}
     not_one = {True: 0, False: 0}
     for c, r in zip(cases_, results):
@@ -518,6 +540,10 @@ def fold(cases_, results, tier):
                 continue
             for k, v in (rec.get('pull') or {}).items():
                 by.setdefault((m, k), []).append(v)
+                # strata: a defect confined to a corner (elongated sources along one image axis, high SNR, ...) must not
+                # be diluted by the rest of the sample
+                for tag in _strata(rec):
+                    by_stratum.setdefault((m, k, tag), []).append(v)
     extra = {'noise_clause': {}}
     viol = []
     inconc = []
@@ -542,6 +568,21 @@ def fold(cases_, results, tier):
         if missing > 0.2 * n:
             viol.append({'clause': 'noise_clause_error_missing_' + k, 'mechanism': None,
                          'witness': {'mode': mode, 'parameter': k, 'trials': n, 'without_reported_error': missing}})
+    extra['noise_clause_strata'] = {}
+    for (m, k, tag), vals in sorted(by_stratum.items()):
+        x = np.array([v for v in vals if v is not None], dtype=float)
+        if len(x) < 40:
+            continue
+        mode = 'docov' if m else 'nocov'
+        k0 = _k0(len(x))
+        exceed = int(np.sum(np.abs(x) > 5))
+        mad = float(1.4826 * np.median(np.abs(x - np.median(x))))
+        extra['noise_clause_strata']['%s/%s/%s' % (mode, k, tag)] = {'trials': len(x), 'beyond_5_sigma': exceed, 'k0': k0,
+                                                                     'robust_pull_scale': round(mad, 3)}
+        if exceed >= k0 or mad > 2.2:
+            viol.append({'clause': 'noise_clause_%s_in_stratum' % k, 'mechanism': None,
+                         'witness': {'mode': mode, 'parameter': k, 'stratum': tag, 'trials': len(x),
+                                     'beyond_5_reported_sigma': exceed, 'k0': k0, 'robust_pull_scale': mad}})
     for m in (True, False):
         mode = 'docov' if m else 'nocov'
         extra['noise_clause'][mode + '/components'] = {'trials': n_trials[m], 'not_exactly_one_near_source': not_one[m]}
